@@ -15,7 +15,7 @@ ASSUMPTIONS = [
     "numpy.sqrt (nanstd inside the breeding-value matrix) by contract; rrBLUP: the ML variance components returned by the optimiser are arbitrary positive reals (scipy.optimize / eigh outside the claim)",
 ]
 STUBS = ["numpy.sqrt (contract)", "rrBLUP_ML0: variance components arbitrary positive (optimiser stubbed)"]
-BOUNDS = {"quick": dict(taxa="<=2 (3 raw)", markers="<=2", traits="<=2", ploidy=2), "thorough": dict(taxa="<=3", markers="<=3", traits="<=2")}
+BOUNDS = {"quick": dict(taxa="<=2 (3 raw)", markers="<=2", traits="<=2", ploidy="2; unphased panels of ploidy 1 and 4 for the dominance model"), "thorough": dict(taxa="<=3", markers="<=3", traits="<=2")}
 OUTSIDE = ["the Nelder-Mead ML optimum and the eigendecomposition of rrBLUP", "convergence of Gauss-Seidel within maxiter (normal equations are decided in fixed-point form)", "rounding"]
 
 ADD = "pybrops.model.gmod.DenseAdditiveLinearGenomicModel"
